@@ -14,10 +14,10 @@ VARIANTS = ["base", "job-order", "event-order", "fresh-ids", "time-shift", "dup-
 
 def workload(tier: str, seed: int) -> tuple[list[dict], list[dict], dict]:
     if tier == "quick":
-        want = {"corpus": 1, "core-exh": 40, "core-rand": 40, "edge": 10}
+        want = {"corpus": 1, "core-exh": 40, "core-rand": 40, "edge": 10, "bunched": 60}
         npres, s2 = 9, 1
     else:
-        want = {"corpus": 1, "core-exh": 100000, "core-rand": 600, "edge": 80}
+        want = {"corpus": 1, "core-exh": 100000, "core-rand": 600, "edge": 80, "bunched": 1000}
         npres, s2 = 16, 2
     defs = lcase.definitions(tier, seed + 4000, want)
     base, stats = lcase.s1_cases(defs, seed, k_list=(2,), schedules=1)
@@ -25,7 +25,9 @@ def workload(tier: str, seed: int) -> tuple[list[dict], list[dict], dict]:
     stats.update(st2)
     stats["definitions"] = len(defs)
     # beyond F: executions with counts > 1 (same event type on parallel branches) - judged by
-    # the ingestion-level monitor only (exact reference for any job DAG)
+    # the ingestion-level monitor (exact reference for any job DAG) and on syntactic equality
+    # of the diagrams up to branch order (150/150 such job sets gave one form under 8
+    # presentations x hash seeds on the unchanged tree)
     import random as _r
     from vlib import gen
     rngc = _r.Random(f"c03-counts-{seed}")
@@ -37,8 +39,8 @@ def workload(tier: str, seed: int) -> tuple[list[dict], list[dict], dict]:
                       "tags": sorted(gen.tags_of(ast) | {"beyond-F", "counts"})})
     cgroups, _cst = lcase.s1_cases(cdefs, seed, k_list=(2,), schedules=1)
     for c in cgroups:
-        c["ingest_only"] = True
-    stats["ingestion_only_job_sets_with_counts"] = len(cgroups)
+        c["counts"] = True
+    stats["job_sets_with_counts"] = len(cgroups)
     groups = base + b2 + cgroups
     cases = []
     wd = core.work_dir()
@@ -47,7 +49,7 @@ def workload(tier: str, seed: int) -> tuple[list[dict], list[dict], dict]:
             variant = VARIANTS[p] if p < len(VARIANTS) else ("all", "group-by-job")[p % 2]
             cases.append({"group": g, "name": b["name"], "jobs": b["jobs"], "variant": variant,
                           "uuid_seed": f"{seed}-{g}-{p}", "rng_seed": f"{seed}-{g}-{p}",
-                          "work_dir": wd, "ingest_only": b.get("ingest_only", False)})
+                          "work_dir": wd, "counts": b.get("counts", False)})
     stats["presentations_per_job_set"] = npres
     return groups, cases, stats
 
@@ -68,10 +70,20 @@ def judge_group(g: dict, rs: list[dict]) -> tuple[list[tuple[str, dict]], list[s
     if mism:
         sym.append(("ingestion:differs-from-reference",
                     {"presentation": mism[0]["variant"], "diff": mism[0].get("ingest_diff")}))
-    if all(r.get("ingest_only") for r in rs):
-        return sym, []
     ok = [r for r in rs if r["learn_ok"]]
     ko = [r for r in rs if not r["learn_ok"]]
+    if g.get("counts"):
+        # beyond F (counts > 1): the semantic oracle does not cover branch counts; demanded
+        # is the same outcome and the same diagram up to branch order, with the same events
+        # carrying a branch count
+        if ok and ko:
+            sym.append(("presentation-dependent:outcome",
+                        {"failed": [(r["variant"], r["exc_type"]) for r in ko][:4]}))
+        forms = {(r.get("nf"), tuple(r.get("bcnt_names", []))) for r in ok}
+        if len(forms) > 1:
+            sym.append(("presentation-dependent:diagram-with-branch-counts",
+                        {"forms": [[str(f[0])[:400], list(f[1])] for f in list(forms)[:3]]}))
+        return sym, []
     if ok and ko:
         sym.append(("presentation-dependent:outcome",
                     {"failed": [(r["variant"], r["exc_type"], r.get("where")) for r in ko][:4],
@@ -180,7 +192,7 @@ def main(tier: str, seed: int) -> int:
         for s, detail in sym:
             witness = {"group_case": {k: b.get(k) for k in ("name", "kind", "src", "tags",
                                                             "stratum", "k", "jobs",
-                                                            "ingest_only")},
+                                                            "counts")},
                        "seed": seed, "group": g, "tier": tier, "detail": detail,
                        "presentations": [{"variant": r["variant"], "hashseed": r.get("_hashseed"),
                                           "ok": r["learn_ok"], "exc": r.get("exc_type"),
@@ -215,7 +227,7 @@ def replay(path: str) -> int:
         variant = VARIANTS[p] if p < len(VARIANTS) else ("all", "group-by-job")[p % 2]
         cases.append({"group": 0, "name": b["name"], "jobs": b["jobs"], "variant": variant,
                       "uuid_seed": f"{seed}-{g}-{p}", "rng_seed": f"{seed}-{g}-{p}",
-                      "work_dir": core.work_dir(), "ingest_only": b.get("ingest_only", False)})
+                      "work_dir": core.work_dir(), "counts": b.get("counts", False)})
     bad = False
     rs = []
     for c, pinfo in zip(cases, w["presentations"]):
